@@ -19,7 +19,7 @@ RULE = ('cases: histories (6..40 steps): server role - push_stream on parents of
         'PUSH_PROMISE; distinct by trace')
 ASSUMPTIONS = ['local SETTINGS frames in this check change only ENABLE_PUSH after the handshake ACK']
 TIERS = {'quick': {'cases': 6000, 'size': 300},
-         'thorough': {'cases': 150000, 'size': 400}}
+         'thorough': {'cases': 1200000, 'size': 400}}
 
 BAD_LISTS = [
     [(b':method', b'GET'), (b':scheme', b'https'), (b':authority', b'example.com')],            # no :path
